@@ -491,7 +491,10 @@ func (e *Env) ident(name string) (TV, error) {
 			}
 			srt, known := e.fr.letSorts[name]
 			if !known {
-				return TV{}, fmt.Errorf("let name %q is used before a call that binds it", name)
+				// no call that binds the name precedes this clause: the call
+				// the name was written for is gone (reported like any other
+				// name the code no longer provides: a failed binding obligation)
+				return TV{}, fmt.Errorf("unknown identifier %q (let name: no call that binds it precedes this clause)", name)
 			}
 			if e.vc.deadLocals == nil {
 				e.vc.deadLocals = map[string]Term{}
